@@ -111,7 +111,10 @@ def gen_patterns(r, ents, tool):
             f = r.choice(cand)
             ext = os.path.splitext(f)[1]
             nm = f if tool == "docker" else os.path.basename(f)
-            seq = r.choice([["!" + nm, "*" + ext], ["*" + ext, "!" + nm, nm], ["*" + ext, "!" + nm]])
+            # (the same pattern text may occur twice: a repeat after an exception excludes again, a repeated exception
+            # re-includes again — every line counts, in order)
+            seq = r.choice([["!" + nm, "*" + ext], ["*" + ext, "!" + nm, nm], ["*" + ext, "!" + nm],
+                            ["*" + ext, "!" + nm, "*" + ext], ["!" + nm, "*" + ext, "!" + nm]])
             for x in seq:
                 lines.append(("glob", x))
     if not any(k in ("glob", "regexp") for k, _ in lines):
@@ -298,8 +301,16 @@ def run(ctx):
                         {"path": "aenv", "kind": "f", "size": 2, "mode": 0o644, "mtime": 1700000002},
                         {"path": ".env", "kind": "f", "size": 2, "mode": 0o644, "mtime": 1700000002},
                         {"path": "x.tmp", "kind": "f", "size": 2, "mode": 0o644, "mtime": 1700000002}]
+            corpus4 = t == 3
+            if corpus4:
+                # every line of a .dockerignore counts, in order — also a line whose text occurred before
+                tool = "docker"
+                ents = [{"path": nm, "kind": "f", "size": 2, "mode": 0o644, "mtime": 1700000002}
+                        for nm in ("a.log", "keep.log", "README.md", "notes.md", "x.c")]
             fstree.materialise(repo, ents)
-            lines = gen_patterns(r, ents, tool) if not (corpus or corpus2 or corpus3) else \
+            if corpus4:
+                lines_fixed = [("glob", "*.log"), ("glob", "!keep.log"), ("glob", "*.log"), ("glob", "!README.md"), ("glob", "*.md"), ("glob", "!README.md")]
+            lines = (lines_fixed if corpus4 else gen_patterns(r, ents, tool)) if not (corpus or corpus2 or corpus3) else \
                 ([("glob", "*.zip"), ("glob", "!src.zip")] if corpus else
                  [("syntax", "syntax: regexp"), ("regexp", "\\.c$")] if corpus2 else [("glob", ".?1"), ("glob", "/.env")])
             text = "".join(tx + "\n" for _, tx in lines)
@@ -348,7 +359,7 @@ def run(ctx):
             chosen = r.sample(roots, min(len(roots), 2 if quick else 4))
             if corpus:
                 chosen = [(".", os.path.join(repo, "c.zip"), "c.zip"), (".", repo, "")]
-            if corpus3:
+            if corpus3 or corpus4:
                 chosen = [(".", repo, "")]
             if corpus2:
                 chosen = [(".", os.path.join(repo, "x", "e.c"), "x/e.c"), (".", os.path.join(repo, "x", "e.c", "sub"), "x/e.c/sub"), (".", repo, "")]
